@@ -28,7 +28,9 @@ func init() {
 			rt.OrderPolicy = rt.PolicySorted
 			return
 		}
+		rt.OrderPolicy = k.Pol
 		c07Check(c, m, k.Path, k.Pol, nil)
+		rt.OrderPolicy = rt.PolicySorted
 	}})
 }
 
